@@ -1117,8 +1117,49 @@ func cancelledSaves(rep *rt.Report, tier rt.Tier) {
 		}(w)
 	}
 	wg.Wait()
+	// a save that takes long and then FAILS still reports its failure (a store that stalls before it rejects the
+	// batch); the durations are wall-clock, the answer is not: an error must come back however long it took
+	slow := []time.Duration{1500 * time.Millisecond}
+	if tier == rt.Thorough {
+		slow = []time.Duration{1500 * time.Millisecond, 3 * time.Second, 6 * time.Second}
+	}
+	var swg sync.WaitGroup
+	for _, d := range slow {
+		swg.Add(1)
+		go func(d time.Duration) {
+			defer swg.Done()
+			t := util.NewMerklePatriciaTrie(util.NewLevelNodeDB(util.NewMemoryNodeDB(), util.NewMemoryNodeDB(), false), 1, nil, statecache.NewEmpty())
+			for i, p := range []string{"0a1b", "0a1c", "0b22"} {
+				if _, err := t.Insert(util.Path(p), val(fmt.Sprintf("s%d", i))); err != nil {
+					panic(err)
+				}
+			}
+			if err := t.SaveChanges(context.Background(), stallingDB{util.NewMemoryNodeDB(), d}, false); err == nil {
+				mu.Lock()
+				if fail == "" {
+					fail = fmt.Sprintf("SaveChanges into a store that stalls for %v and then rejects the batch returned nil", d)
+				}
+				mu.Unlock()
+			}
+		}(d)
+	}
+	swg.Wait()
 	rep.Set("aux_cancelled_saves", fmt.Sprintf("auxiliary free-running loop (not exhaustive): %d saves with an already cancelled context; %d reported the context error, %d reported success and were found complete on the target", okAnswers+errAnswers, errAnswers, okAnswers))
 	if fail != "" {
 		rep.Violate("[cancelled-saves] "+fail, map[string]any{"run": "cancelled-saves"})
 	}
 }
+
+// stallingDB is a save target that takes its time and then rejects the batch.
+type stallingDB struct {
+	*util.MemoryNodeDB
+	d time.Duration
+}
+
+var errStalled = fmt.Errorf("store rejects the batch after stalling")
+
+func (s stallingDB) MultiPutNode(keys []util.Key, nodes []util.Node) error {
+	time.Sleep(s.d)
+	return errStalled
+}
+func (s stallingDB) PutNode(key util.Key, node util.Node) error { time.Sleep(s.d); return errStalled }
